@@ -218,12 +218,28 @@ def run(cx):
                       'new vertex j is the old vertex with id unique[j] (coordinates copied)', where=c.file, found=rr)
     b = cx.fn('geom3::mesh::Mesh::unique_vertices')
     if b:
-        ins = [cx.arg(s, 1) for s in b.calls('HashSet::insert')]
+        # the set of vertex ids as a comprehension over the selected faces: three explicit inserts per face, or every element of the face array
+        from vpa import comp as CMP
+        sets = [cx.arg(s_, 0) for s_ in b.calls('Itertools::collect_vec')] + [cx.retval(b)]
+        comps = []
+        for d_ in sets:
+            for x in subterms(d_):
+                if isinstance(x, tuple) and x and ((x[0] == 'call' and x[1] == 'Iterator::collect') or x[0] in ('mut', 'phi')):
+                    cs = [c for c in CMP.comprehensions(cx, b, x) if c.get('elem') is not None]
+                    if cs and all(find('(call *Mesh::faces (param self))', c['elem']) is not None for c in cs):
+                        comps = cs
+                        break
+            if comps:
+                break
+        FACE = '(index (call *Mesh::faces (param self)) (index (param triangle_indices) (itervar (range 0 (len (param triangle_indices))))))'
         ks = set()
-        for d in ins:
-            e = match('(index (index (call *Mesh::faces (param self)) (itervar (param triangle_indices))) $k)', d)
-            if e:
-                ks.add(e['k'][1])
+        ins = comps
+        for c in comps:
+            e = match(f'(index {FACE} $k)', c['elem'])
+            if e and not c['conds']:
+                ks.add(e['k'][1] if e['k'][0] == 'const' else 'all')
+        if ks == {'all'} and len(comps) == 1:
+            ks, ins = {0, 1, 2}, [0, 1, 2]
         cx.ob('EXPR', 'unique_vertices:three', ks == {0, 1, 2} and len(ins) == 3, 'exactly the three vertex ids of each selected face are collected', found=str(sorted(ks)))
         r = cx.retval(b)
         cx.ob('ORDER', 'unique_vertices:sorted', match('(mut slice::sort_unstable . (call Itertools::collect_vec _))', r) is not None or match('(mut slice::sort . _)', r) is not None,
